@@ -208,24 +208,3 @@ Proof.
   inversion H; subst. now apply Z.ltb_lt in E.
 Qed.
 
-Lemma signed_bound : forall neg x, x < inf_bits -> (signed neg x < 18446744073709551616)%N.
-Proof.
-  intros neg x H. unfold signed, inf_bits, two63 in *. destruct neg; lia.
-Qed.
-
-Ltac break_match H :=
-  match type of H with
-  | context [match ?x with _ => _ end] =>
-    lazymatch x with
-    | context [match _ with _ => _ end] => fail
-    | _ => destruct x eqn:?
-    end
-  end.
-
-Theorem parse_number_bound : forall tok b, parse_number tok = Some b -> (b < 18446744073709551616)%N.
-Proof.
-  intros tok b H. unfold parse_number in H.
-  repeat (break_match H; try discriminate H);
-    inversion H; subst; apply signed_bound; try (vm_compute; reflexivity);
-    match goal with E : round_rat _ _ = Some _ |- _ => apply round_rat_bound in E; exact E end.
-Qed.
